@@ -358,15 +358,41 @@ def _deflate_complete(prog, chk, L4, zc):
     else:
         ocond, obody = children(outer)[0], children(outer)[-1]
         test_first = True
-    vars_ = {x.get('name'): x for x in walk(zc.body) if x.get('kind') == 'VarDecl'}
+    from . import c03 as _c03
     strm = [x for x in walk(zc.body) if x.get('kind') == 'VarDecl' and 'z_stream' in (x.get('type') or '')]
-    if 'ptr' not in vars_ or 'end' not in vars_ or len(strm) != 1:
-        raise AnalysisBroken('zlib_compress: ptr / end / z_stream variables not found')
+    if len(strm) != 1:
+        raise AnalysisBroken('zlib_compress: z_stream variable not found')
     sid = strm[0]['id']
-    chunk = None
-    for nm in ('chunk_size',):
-        if nm in vars_:
-            chunk = program.literal_value(vars_[nm])
+    # roles by data flow: the input cursor is the pointer stored into strm.next_in, the limit is the other
+    # pointer it is compared with / subtracted from, the chunk size is the constant given to strm.avail_out
+    def ptr_vars(e):
+        out = []
+        for x in walk(e):
+            if x.get('kind') == 'DeclRefExpr' and (x.get('referencedDecl') or {}).get('kind') == 'VarDecl' \
+                    and '*' in (x.get('type') or ''):
+                d = zc.tu.ids.get(x['referencedDecl']['id'])
+                if d is not None and d not in out:
+                    out.append(d)
+        return out
+    cur, chunk = [], None
+    for n in walk(zc.body):
+        if n.get('kind') == 'BinaryOperator' and n.get('opcode') == '=':
+            l = strip(children(n)[0], explicit=True)
+            if l.get('kind') == 'MemberExpr' and l.get('name') == 'next_in':
+                cur += [d for d in ptr_vars(children(n)[1]) if d not in cur]
+            elif l.get('kind') == 'MemberExpr' and l.get('name') == 'avail_out':
+                v = _c03._const_int(prog, zc, children(n)[1])
+                chunk = v if isinstance(v, int) else chunk
+    lim = []
+    if len(cur) == 1:
+        for n in walk(zc.body):
+            if n.get('kind') == 'BinaryOperator' and n.get('opcode') in ('<', '<=', '>', '>=', '-', '==', '!='):
+                vs = ptr_vars(n)
+                if cur[0] in vs:
+                    lim += [d for d in vs if d is not cur[0] and d not in lim]
+    if len(cur) != 1 or len(lim) != 1:
+        raise AnalysisBroken('zlib_compress: input cursor / limit variables not found')
+    vars_ = {'ptr': cur[0], 'end': lim[0]}
     if not isinstance(chunk, int) or chunk <= 0:
         raise AnalysisBroken('zlib_compress: chunk size constant not found')
     Z_FINISH = 4
